@@ -21,6 +21,9 @@ CARRIERS = {
     'F': dict(table='TableG7', bc=0.1, mv_fps=297.0, sight_in=1.0, zero_yd=None, weight=100.0, diameter=0.3, length=1.0, twist=10.0),
     # slow projectile: minimum velocity / altitude limits
     'D': dict(table='TableG7', bc=0.1, mv_fps=300.0, sight_in=1.0, zero_yd=None, weight=100.0, diameter=0.3, length=1.0, twist=10.0),
+    # a measured (custom) drag table that does NOT start at Mach 0, and a projectile flying below the midpoint of its first two entries
+    'G': dict(table=[{'Mach': 0.4, 'CD': 0.21}, {'Mach': 0.7, 'CD': 0.27}, {'Mach': 0.9, 'CD': 0.40}, {'Mach': 1.1, 'CD': 0.52}, {'Mach': 2.0, 'CD': 0.36}],
+              bc=0.2, mv_fps=520.0, sight_in=1.5, zero_yd=None, weight=120.0, diameter=0.3, length=1.0, twist=10.0),
 }
 
 WINDS = {
@@ -49,7 +52,7 @@ def make(name, step_ft, wind='none', look_deg=0.0, relative_deg=0.0, cant_deg=0.
     cfg = {'max_calc_step_size_feet': float(step_ft)}
     cfg.update(config or {})
     calc = p.Calculator(_config=cfg)
-    dm = p.DragModel(c['bc'], getattr(p, c['table']), U.Grain(c['weight']), U.Inch(c['diameter']), U.Inch(c['length']))
+    dm = p.DragModel(c['bc'], getattr(p, c['table']) if isinstance(c['table'], str) else [dict(r) for r in c['table']], U.Grain(c['weight']), U.Inch(c['diameter']), U.Inch(c['length']))
     ammo = p.Ammo(dm, U.FPS(c['mv_fps']))
     weapon = p.Weapon(U.Inch(c['sight_in'] if sight_in is None else sight_in), U.Inch(c['twist']))
     atmo = p.Vacuum(U.Foot(altitude_ft)) if vacuum else p.Atmo.icao(U.Foot(altitude_ft))
